@@ -339,12 +339,14 @@ RecvData(s, m, fresh) ==
                 s2 == IF m.rkid = s1.oid
                       THEN [s1 EXCEPT !.pend = @ \cup {<<k[3], k[4]>> : k \in {k \in s1.macs : k[1] = s1.oid - 1}},
                                        !.macs = {k \in @ : k[1] # s1.oid - 1},
+                                       !.ctrs = IF KF_CounterGrowth THEN @ ELSE {cc \in @ : cc[1] >= s1.oid},
                                        !.prev = s1.cur, !.cur = fresh, !.oid = @ + 1]
                       ELSE s1
                 \* rotateTheirKey
                 s3 == IF m.skid = s2.tid
                       THEN [s2 EXCEPT !.pend = @ \cup {<<k[3], k[4]>> : k \in {k \in s2.macs : k[2] = s2.tid - 1}},
                                        !.macs = {k \in @ : k[2] # s2.tid - 1},
+                                       !.ctrs = IF KF_CounterGrowth THEN @ ELSE {cc \in @ : cc[2] >= s2.tid},
                                        !.tprev = s2.tcur, !.tcur = m.next, !.tid = @ + 1]
                       ELSE s2
                 plain == m.text
